@@ -1127,6 +1127,41 @@ class LazyLock(object):
         self._get().release()
 
 
+class SimEvent(object):
+    """threading.Event created by lomond itself (persist() without an exit
+    event): wait(timeout) passes simulated, not real, time."""
+
+    def __init__(self):
+        self._flag = False
+
+    def set(self):
+        self._flag = True
+
+    def clear(self):
+        self._flag = False
+
+    def is_set(self):
+        return self._flag
+
+    isSet = is_set
+
+    def wait(self, timeout=None):
+        if self._flag:
+            return True
+        w = CURRENT
+        if w is None:
+            return self._flag
+        if timeout is None:
+            raise SimHang('waits for ever on an Event that nobody can set')
+        w.probe('internal_event_wait')
+        w.n_event_waits = getattr(w, 'n_event_waits', 0) + 1
+        if w.n_event_waits > 5000:
+            raise SimHang('endless sequence of timed waits on an internal '
+                          'Event (persist() without a reachable exit event)')
+        w.sleep(timeout * 1e6)
+        return self._flag
+
+
 class _ThreadingNS(object):
     """lomond.session.threading: Lock() is the simulator's lock while a
     ThreadSim scheduler is active, a real lock otherwise."""
@@ -1150,7 +1185,7 @@ class _ThreadingNS(object):
             return _ThreadingNS._real.RLock()
         return LazyLock(reentrant=True)
 
-    Event = _real.Event
+    Event = SimEvent
     Thread = _real.Thread
     Condition = _real.Condition
     Semaphore = _real.Semaphore
